@@ -546,3 +546,104 @@ Theorem C08_reader_tables :
   forallb (fun c => (c <? 32) || ((127 <=? c) && (c <=? 159)) || is_nonchar c) html_invalid_codepoints = true.
 Proof. exact (conj ent_text_core (conj ent_attr_core (conj invalid_charrefs_keys invalid_codepoints_class))). Qed.
 Print Assumptions C08_reader_tables.
+
+(* ======================================================================================================
+   Concrete target encodings: ascii, iso-8859-1, windows-1252, utf-8 as defined in Model/Codecs.v (encoder =
+   inverse of the single-byte decode table generated from the running interpreter / RFC 3629; strict decoder
+   defined in Coq). Nothing about the codec is a hypothesis below; [encoder k = true] says k is one of the four.
+   ====================================================================================================== *)
+From BS Require Model.Dammit.
+From BS Require Import Gen.T_Codecs Model.Codecs Proofs.CodecsProofs.
+
+(* table obligations: the generated tables have 256 entries and the encoder finds every defined byte back
+   (no two bytes share a character) *)
+Theorem C08_codec_tables_invertible :
+  sb_inverse_ok cd_ascii_table = true /\ sb_inverse_ok cd_latin1_table = true /\ sb_inverse_ok cd_cp1252_table = true /\
+  cd_encode_replacement = [63].
+Proof. exact (conj ascii_inverse_ok (conj latin1_inverse_ok (conj cp1252_inverse_ok eq_refl))). Qed.
+Print Assumptions C08_codec_tables_invertible.
+
+(* which characters each target represents *)
+Theorem C08_encodable_by_target : forall c,
+  encodable (codec_enc_char Ascii) c = (c <? 128) /\
+  encodable (codec_enc_char Latin1) c = (c <? 256) /\
+  encodable (codec_enc_char Utf8) c = scalar c /\
+  (encodable (codec_enc_char Cp1252) c = true <-> In (Some c) cd_cp1252_table) /\
+  (128 <= c <= 159 -> encodable (codec_enc_char Cp1252) c = false).
+Proof.
+  exact (fun c => conj (ascii_encodable c) (conj (latin1_encodable c) (conj (utf8_encodable c)
+           (conj (cp1252_encodable_iff c) (cp1252_c1_unencodable c))))).
+Qed.
+Print Assumptions C08_encodable_by_target.
+
+(* the codec hypotheses of the parametric theorems are theorems for the four targets *)
+Theorem C08_concrete_codec_hypotheses : forall k, encoder k = true ->
+  ascii_ok (codec_enc_char k) /\
+  (forall u b, enc_strict (codec_enc_char k) u = Some b -> codec_decode k Dammit.Strict ([] ++ b) = Some u) /\
+  (forall bs u, codec_decode k Dammit.Strict bs = Some u -> enc_strict (codec_enc_char k) u = Some bs).
+Proof.
+  exact (fun k H => conj (codec_ascii_ok k H) (conj (codec_dec_ok k H) (fun bs u => codec_encode_decode k bs u H))).
+Qed.
+Print Assumptions C08_concrete_codec_hypotheses.
+
+(* always succeeds, and the bytes decode strictly in the target to the text with references — every string *)
+Theorem C08_concrete_encode_total : forall k s, encoder k = true ->
+  exists b, codec_encode k EXmlCharRef s = Some b /\
+            codec_decode k Dammit.Strict b = Some (xcr_text (codec_enc_char k) s).
+Proof. exact concrete_encode_total. Qed.
+Print Assumptions C08_concrete_encode_total.
+
+Theorem C08_concrete_encode_replace_total : forall k s, encoder k = true ->
+  exists b, codec_encode k EReplace s = Some b.
+Proof. exact concrete_encode_replace_total. Qed.
+Print Assumptions C08_concrete_encode_replace_total.
+
+(* encode(), prettify(encoding), encode_contents(): every tree, every indent level, both formatters *)
+Theorem C08_concrete_entry_points_never_raise : forall k nm ep f t, encoder k = true ->
+  exists b, entry_bytes (codec_enc_char k) [] nm ep f t = Some b.
+Proof. exact concrete_entry_points_total. Qed.
+Print Assumptions C08_concrete_entry_points_never_raise.
+
+(* lossless through C09's formatter model and both readers, for every text / attribute value each of whose
+   characters the target represents or lies in U+00A0..U+10FFFF (values: and is no surrogate / noncharacter) —
+   i.e. outside the class of the open finding C08-c1-nonchar-reference *)
+Theorem C08_concrete_lossless_text : forall k t, encoder k = true -> text_ok k t ->
+  exists o b d, ES.substitute_xml t false = Some o /\ codec_encode k EXmlCharRef o = Some b /\
+                codec_decode k Dammit.Strict b = Some d /\ SQ.read_text d = t.
+Proof. exact concrete_lossless_text. Qed.
+Print Assumptions C08_concrete_lossless_text.
+
+Theorem C08_concrete_lossless_attr : forall k v, encoder k = true -> attr_ok k v ->
+  exists q b d, ES.substitute_xml v true = Some q /\ codec_encode k EXmlCharRef q = Some b /\
+                codec_decode k Dammit.Strict b = Some d /\ ES.read_quoted d = Some v.
+Proof. exact concrete_lossless_attr. Qed.
+Print Assumptions C08_concrete_lossless_attr.
+
+Theorem C08_concrete_lossless_html : forall k t, encoder k = true ->
+  (text_ok k t ->
+   exists b d, codec_encode k EXmlCharRef (ES.substitute_html t) = Some b /\
+               codec_decode k Dammit.Strict b = Some d /\ SQ.read_text d = t) /\
+  (attr_ok k t ->
+   exists b d, codec_encode k EXmlCharRef (ES.quoted_attribute_value (ES.substitute_html t)) = Some b /\
+               codec_decode k Dammit.Strict b = Some d /\ ES.read_quoted d = Some t).
+Proof. exact concrete_lossless_html. Qed.
+Print Assumptions C08_concrete_lossless_html.
+
+(* the side condition per target: iso-8859-1 and utf-8 lose nothing of any Python str; ascii and windows-1252
+   need the text free of U+0080..U+009F (windows-1252 represents none of them) *)
+Theorem C08_text_ok_by_target : forall t,
+  ((forall c, In c t -> c < 128 \/ 160 <= c <= 1114111) -> text_ok Ascii t /\ text_ok Cp1252 t) /\
+  ((forall c, In c t -> c <= 1114111) -> text_ok Latin1 t /\ text_ok Utf8 t).
+Proof. exact text_ok_by_target. Qed.
+Print Assumptions C08_text_ok_by_target.
+
+Example C08_text_ok_satisfiable : text_ok Cp1252 [99; 8364; 9731] /\ text_ok Ascii [233] /\ text_ok Latin1 [150].
+Proof. exact text_ok_examples. Qed.
+
+(* outside it the clause is false for ascii and windows-1252 (the open finding, witness U+0096), inside Coq *)
+Theorem C08_concrete_lossless_refuted :
+  exists t, forall k, k = Ascii \/ k = Cp1252 ->
+    exists o b d, ES.substitute_xml t false = Some o /\ codec_encode k EXmlCharRef o = Some b /\
+                  codec_decode k Dammit.Strict b = Some d /\ SQ.read_text d <> t.
+Proof. exact concrete_lossless_refuted. Qed.
+Print Assumptions C08_concrete_lossless_refuted.
